@@ -25,9 +25,16 @@ WinOK(got, exp, strays, evs) ==
         /\ evs[got[i]].tid = evs[exp[1]].tid
         /\ Dom(evs[got[i]].cls) = Dom(evs[exp[1]].cls)
 
+\* launch image lists: sorted by load address, same multiset; the order among EQUAL addresses is not pinned
+ImgsOK(g, e) ==
+  /\ Len(g) = Len(e)
+  /\ \A i \in 1..(Len(g) - 1) : g[i].rank <= g[i + 1].rank
+  /\ \A i \in 1..Len(e) : Cardinality({j \in 1..Len(g) : g[j] = e[i]}) = Cardinality({j \in 1..Len(e) : e[j] = e[i]})
+
 FieldsOK(gf, ef, wild) ==
   /\ "c" \in DOMAIN gf /\ gf.c = ef.c
-  /\ \A key \in DOMAIN ef \ wild : key \in DOMAIN gf /\ gf[key] = ef[key]
+  /\ \A key \in DOMAIN ef \ wild : key \in DOMAIN gf /\
+        (IF key = "imgs" THEN ImgsOK(gf[key], ef[key]) ELSE gf[key] = ef[key])
 
 EffOK(ge, ee) ==
   /\ Len(ge) = Len(ee)
